@@ -17,6 +17,18 @@ package bft
 //@   ensures[safe] result == nil && b.HighQC.Header != nil ==> (bytes(b.HighQC.BlockHash) == bytes(msg.HighQc.BlockHash) && bytes(b.HighQC.ResultsHash) == bytes(msg.HighQc.ResultsHash)) || viewBefore(b.HighQC.Header, msg.HighQc.Header)
 //@   ensures[frame] unchanged(b.HighQC)
 
+// The leader collecting election votes: the highest certificate it keeps (b.HighQC - which is also its OWN lock) is
+// only ever replaced by a certificate from a strictly LATER view, and only by the vote's HighQc after it passed
+// CheckHighQC; an older certificate arriving last never lowers the lock.
+// (evidence bookkeeping writes the evidence list, its de-duplicator and strips block / results from the two votes of the
+// evidence: ASSUMED frame - it goes through committee loading and signature verification)
+//@ func (*BFT).AddDSE
+//@   trusted
+//@   modifies DoubleSignEvidences.*, map(string;bool), elems(*DoubleSignEvidence), lib.QuorumCertificate.Block, lib.QuorumCertificate.Results
+//@ func (*BFT).handleHighQCVDFAndEvidence
+//@   ensures[locknotlowered] old(b.HighQC) != nil && old(b.HighQC.Header) != nil ==> b.HighQC == old(b.HighQC) || (b.HighQC != nil && b.HighQC.Header != nil && viewBefore(old(b.HighQC.Header), b.HighQC.Header))
+//@   ensures[fromvote] b.HighQC != old(b.HighQC) ==> b.HighQC == vote.HighQc
+
 // ---- C14: double-sign evidence ---------------------------------------------------------------------
 //@ func (*DoubleSignEvidence).CheckBasic
 //@   pure
